@@ -2,7 +2,8 @@
    MultiFileReader AS WRITTEN (after the fix: commits 2ebe104 SpooledStringIO.len,
    58e1fc2 MultiFileReader.seek, 3166b79 __next__ at/past the end, 7904e8d
    SpooledBytesIO.readlines(sizehint), b866c21 SpooledStringIO.rollover, 9c350bf read(None),
-   bb0f4f6 SpooledBytesIO.readline(0), 3d28150 text readline/readlines at "\n" only).  Definitions only.
+   bb0f4f6 SpooledBytesIO.readline(0), 3d28150 text readline/readlines at "\n" only,
+   6d704f0 negative seek, 78e0b96 MultiFileReader.read(0)).  Definitions only.
 
    What is modelled and trusted (not verified):
    * the backing object - io.BytesIO before rollover, tempfile.TemporaryFile
@@ -480,8 +481,8 @@ Fixpoint mfr_loop (fuel : nat) (m : mfr) (amt : nat) (parts : list N) : mfr * fo
 
 Definition mfr_step (m : mfr) (op : mop) : mfr * fobs :=
   match op with
-  | MRead (Some (S _ as amt)) => mfr_loop (S (S (length (m_files m)))) m amt []
-  | MRead _ =>                                  (* `if not amt:` join(f.read() for f in files) *)
+  | MRead (Some amt) => mfr_loop (S (S (length (m_files m)))) m amt []
+  | MRead None =>                               (* `if amt is None or amt < 0:` join(f.read() for f in files) *)
       let rs := map (fun f => call_data f (Read None)) (m_files m) in
       (mkMFR (map fst rs) (m_index m), OData (concat (map snd rs)))
   | MSeek0 => (mkMFR (map (fun f => f_seek0 f 0) (m_files m)) 0, ONone)
